@@ -276,12 +276,20 @@ func TestVerifC19HandleMessage(t *testing.T) {
 			return
 		}
 	}
-	time.Sleep(50 * time.Millisecond)
+	// nothing beyond the bound was buffered: a fresh message is the very next one the handler sees
+	if !send("o1", 9999) {
+		return
+	}
+	if !waitEntered("o1", bound+2) {
+		violate("sync-lost-message", "o1: a message sent to the drained queue is never handled")
+		return
+	}
 	h.mu.Lock()
+	next := h.entered["o1"][bound+1]
 	n := len(h.entered["o1"])
 	h.mu.Unlock()
-	if n > bound+1 {
-		violate("sync-queue-over-bound", fmt.Sprintf("o1: %d messages were buffered behind a stuck handler, bound %d", n-1, bound))
+	if next != 9999 {
+		violate("sync-queue-over-bound", fmt.Sprintf("o1: message #%d was buffered behind a stuck handler beyond the bound of %d", next, bound))
 	}
 	rep.Samples = append(rep.Samples, map[string]any{"o1_handled": n, "bound": bound})
 }
